@@ -1,0 +1,9 @@
+//go:build verif
+
+package visitor
+
+import "time"
+
+// VerifSetCheckInterval shortens the period of keepVisitorsRunning (verification tooling only;
+// call before the first UpdateAll).
+func (vm *Manager) VerifSetCheckInterval(d time.Duration) { vm.checkInterval = d }
